@@ -94,6 +94,8 @@ def prepare(repo=REPO, only=None, real_deps=False):
     with open(os.path.join(crate, 'src', 'lib.rs'), 'a') as f:
         f.write('\n#[cfg(kani)] #[path = "%s"] pub(crate) mod verif_stubs;\n' % os.path.join(HARNESS_DIR, 'stubs.rs'))
     edits += instrument.apply_all(crate)
+    if real_deps:
+        edits.append(instrument.strip_test_modules(crate))
     return root, crate, edits
 
 
@@ -177,7 +179,7 @@ def parse_output(out, harnesses):
 def run(crate, harnesses, jobs=8, timeout_s=1500, per_harness_timeout='600s', playback=False, extra=()):
     """harnesses: fully qualified names. returns (per-harness results, raw output, cmd, wall)"""
     cmd = ['cargo', 'kani', '--target-dir', TARGET_DIR, '-Z', 'stubbing', '-Z', 'unstable-options',
-           '--harness-timeout', per_harness_timeout, '--exact']
+           '--harness-timeout', per_harness_timeout, '--exact', '--default-unwind', '8']
     if playback:
         cmd += ['-Z', 'concrete-playback', '--concrete-playback=print']
     for h in harnesses:
